@@ -71,7 +71,7 @@ def main():
             continue
         by_prop.setdefault(prop, []).append(d.name)
     results = {}
-    with cf.ThreadPoolExecutor(max_workers=4) as ex:
+    with cf.ThreadPoolExecutor(max_workers=5) as ex:
         for res in ex.map(lambda kv: run_prop(*kv), sorted(by_prop.items())):
             for sid, det in res:
                 results[sid] = det
